@@ -3584,6 +3584,7 @@ class mulgrid(object):
                 if isinstance(columns[0], str):
                     columns = [self.column[col] for col in columns]
             for col in columns:
+                if col.num_layers == 0: continue # (nothing left to snap)
                 toplayer = self.column_surface_layer(col)
                 if col.surface - toplayer.bottom < min_thickness:
                     col.surface = toplayer.bottom
@@ -3600,6 +3601,7 @@ class mulgrid(object):
             if isinstance(columns[0], str):
                 columns = [self.column[col] for col in columns]
         for col in columns:
+            if col.num_layers == 0: continue # (nothing left to snap)
             toplayer = self.column_surface_layer(col)
             if col.surface > toplayer.centre:
                 col.surface = toplayer.top
